@@ -23,7 +23,7 @@ func (o OffsetPaginator[ResourceType, OptionsType]) Paginate(sb *bun.SelectQuery
 	sb = sb.Order(orderExpression)
 
 	if o.query.Offset > math.MaxInt32 {
-		return nil, fmt.Errorf("offset value exceeds maximum allowed value")
+		return nil, NewErrInvalidQuery("offset value exceeds maximum allowed value")
 	}
 	if o.query.Offset > 0 {
 		sb = sb.Offset(int(o.query.Offset))
@@ -56,7 +56,7 @@ func (o OffsetPaginator[ResourceType, OptionsType]) BuildCursor(ret []ResourceTy
 		cp := o.query
 		// Check for potential overflow
 		if o.query.Offset > math.MaxUint64-o.query.PageSize {
-			return nil, fmt.Errorf("offset overflow")
+			return nil, NewErrInvalidQuery("offset overflow")
 		}
 		cp.Offset = o.query.Offset + o.query.PageSize
 		next = &cp
